@@ -236,6 +236,15 @@ func runHistory(f []string) string {
 			i, _ := strconv.Atoi(a[1])
 			servers[i] = servers[i].Clone()
 			servers[i].SessionTicketsDisabled = a[2] == "1"
+		case "k":
+			// configuration a[2] becomes Config.Clone() of configuration a[1] (same kind); the parent stays in use, so
+			// later SetSessionTicketKeys calls on either must not reach the other (each follows its own key history)
+			i, _ := strconv.Atoi(a[1])
+			j, _ := strconv.Atoi(a[2])
+			if i == j || kinds[i] != kinds[j] {
+				return "BADCASE"
+			}
+			servers[j] = servers[i].Clone()
 		case "fv", "fs", "ft":
 			key := "s" + a[1] + ".test"
 			cs, ok := sp.inner.Get(key)
@@ -926,6 +935,66 @@ func gen(seed uint64, tier string) []string {
 	for i := 0; i < nH; i++ {
 		c, s, ops := genHistory(r)
 		add("H %d %d %s %s", c, s, ops)
+	}
+	// clones: configuration 1 is taken by Config.Clone() from configuration 0 after ticket keys exist (first key, or after
+	// rotations), then keys are rotated on the parent and/or the clone (fewer / as many / more keys than before, old key
+	// kept or dropped) and tickets of either are offered to both: each configuration answers by ITS OWN key history
+	for _, sk := range [][3]string{{"gm", "g", "e013"}, {"auto", "g", "e013"}, {"auto", "t12", "009c"}, {"tls", "t12", "c030"}, {"tls", "t10", "002f"}} {
+		c := func(srv, name int) string { return fmt.Sprintf("c/%d/%s/%s/n/%d/1", srv, sk[1], sk[2], name) }
+		pre := "s/0/" + sk[2] + ";"
+		for _, rot := range []string{"r/0/9", "r/0/9+8", "r/0/9+1", "r/0/5+6;r/0/9", "r/1/9", "r/1/9+1"} {
+			for _, first := range []string{"", "r/0/4+1;", "r/0/1+4+5;"} {
+				if rot == "r/0/5+6;r/0/9" && first != "" {
+					continue
+				}
+				if !thorough && sk[0]+sk[1] != "gmg" && !(first == "" && (rot == "r/0/9" || rot == "r/0/9+1" || rot == "r/1/9")) &&
+					!(first == "r/0/4+1;" && rot == "r/0/9+8") {
+					continue // quick: the whole matrix for GMSSL, four picks for the other modes
+				}
+				// clone's own ticket after a rotation elsewhere; the other configuration's new ticket offered to it
+				add("H %d 3 %s,%s %s", sk[0], sk[0], pre+first+c(0, 0)+";k/0/1;"+c(1, 1)+";"+rot+";"+c(1, 1)+";"+c(0, 0)+";"+c(0, 0)+";"+c(1, 0)+";"+c(0, 1))
+			}
+		}
+		add("H %d 3 %s,%s %s", sk[0], sk[0], pre+c(0, 0)+";k/0/1;r/0/9;"+c(1, 0)+";"+c(0, 0)+";k/0/1;"+c(1, 0)+";r/1/7;"+c(0, 0)+";"+c(1, 0))
+	}
+	nK := 24
+	if thorough {
+		nK = 400
+	}
+	for i := 0; i < nK; i++ {
+		kind := []string{"gm", "auto", "tls"}[r.Intn(3)]
+		ck, su := "g", []string{"e013", "e053"}[r.Intn(2)]
+		if kind == "tls" || (kind == "auto" && r.Intn(2) == 0) {
+			ck, su = []string{"t12", "t11", "t10"}[r.Intn(3)], []string{"002f", "0035", "c014"}[r.Intn(3)]
+		}
+		ops := []string{"s/0/" + su}
+		cloned, next := false, 3
+		for n := 3 + r.Intn(5); n > 0; {
+			switch x := r.Intn(8); {
+			case x < 2:
+				ops = append(ops, []string{"k/0/1", "k/0/1", "k/1/0"}[r.Intn(3)])
+				cloned = true
+			case x < 4 && cloned:
+				s := r.Intn(2)
+				switch r.Intn(3) {
+				case 0:
+					ops = append(ops, fmt.Sprintf("r/%d/%d", s, next))
+				case 1:
+					ops = append(ops, fmt.Sprintf("r/%d/%d+%d", s, next, 1+r.Intn(next-1)))
+				case 2:
+					ops = append(ops, fmt.Sprintf("r/%d/%d+%d+%d", s, next, 1+r.Intn(next-1), 1+r.Intn(next-1)))
+				}
+				next++
+			default:
+				srv := 0
+				if cloned {
+					srv = r.Intn(2)
+				}
+				ops = append(ops, fmt.Sprintf("c/%d/%s/%s/n/%d/1", srv, ck, su, r.Intn(2)))
+				n--
+			}
+		}
+		add("H %d 3 %s,%s %s", kind, kind, strings.Join(ops, ";"))
 	}
 	// X: end-to-end tampering: every position and every truncation of one GMSSL-CBC ticket; samples elsewhere
 	add("X %d gm g e013 0 n -")
